@@ -97,3 +97,16 @@ func TestCorpus(t *testing.T) {
 		t.Fail()
 	}
 }
+
+// TestMinimise shrinks $VERIF_REPLAY_FILE structurally (see Minimise).
+func TestMinimise(t *testing.T) {
+	path := os.Getenv("VERIF_REPLAY_FILE")
+	if path == "" {
+		t.Skip("VERIF_REPLAY_FILE not set")
+	}
+	note, err := Minimise(path, 400)
+	if err != nil {
+		t.Fatalf("minimise %s: %v", path, err)
+	}
+	fmt.Printf("MINIMISE %s: %s\n", path, note)
+}
